@@ -103,7 +103,14 @@ func HashStr(s string) string {
 
 // ---------------------------------------------------------------------------------------------
 
-const verifDir = "/verif"
+// verifDir is the root under which evidence, replays, logs and known_findings.json live
+// (set by the check script; a snapshot run writes into its own snapshot).
+var verifDir = func() string {
+	if d := os.Getenv("VERIF_DIR"); d != "" {
+		return d
+	}
+	return "/verif"
+}()
 
 func envInt(k string, def int64) int64 {
 	if v := os.Getenv(k); v != "" {
